@@ -57,13 +57,16 @@ def run_c18(tier, out):
                       {"kind": "conc", "event": brief})
     # negative control: one concurrent response altered
     neg = [dict(r) for r in rows]
-    t = next(i for i, r in enumerate(neg) if r["t"] == "call" and r["resp"].get("res") == "ok")
-    neg[t]["resp"] = {"res": "err"}
-    cp = os.path.join(wd, "neg.ndjson")
-    write_ndjson(cp, neg[:t + 1])
-    r2 = tlc_judge("Trace_Conc", "Trace_Conc.cfg", {"TRACE": cp}, "judge-C18-neg")
-    if (t + 1) not in r2["dev"]:
-        raise ToolError("negative control: the concurrency judge accepted a corrupted trace")
+    t = next((i for i, r in enumerate(neg) if r["t"] == "call" and r["resp"].get("res") == "ok"), None)
+    if t is None and not res["dev"]:
+        raise ToolError("no successful concurrent call was recorded")
+    if t is not None:
+        neg[t]["resp"] = {"res": "err"}
+        cp = os.path.join(wd, "neg.ndjson")
+        write_ndjson(cp, neg[:t + 1])
+        r2 = tlc_judge("Trace_Conc", "Trace_Conc.cfg", {"TRACE": cp}, "judge-C18-neg")
+        if (t + 1) not in r2["dev"]:
+            raise ToolError("negative control: the concurrency judge accepted a corrupted trace")
     calls = [r for r in rows if r["t"] == "call"]
     distinct = {(r["t"], r.get("thr"), r.get("call"), r.get("threads"), r.get("n")) for r in rows}
     for r in [r for r in rows if r["t"] == "pool"][:1] + calls[:2] + [r for r in rows if r["t"] == "reopen"][:1]:
